@@ -129,7 +129,8 @@ var c14textRe = regexp.MustCompile(`>([^<>]+)</(v|f|t|definedName|formula1)>`)
 var c14elemRe = regexp.MustCompile(`<([A-Za-z:]+)(\s[^<>]*)?/>|<([A-Za-z:]+)(\s[^<>]*)?>[^<>]*</([A-Za-z:]+)>`)
 
 var c14cellRe = regexp.MustCompile(`<c r="([^"]*)"`)
-var c14cellRefs = []string{"ZZZZZZZZZZZZZZ1", "AAAAAAAAAAAAAAAAAAAAAAAA7", "A18446744073709551617", "XFE1", "A0", "1A", "A-1", ""}
+// hostile references, and valid references in the wrong place (out of order, duplicated, far to the right)
+var c14cellRefs = []string{"ZZZZZZZZZZZZZZ1", "AAAAAAAAAAAAAAAAAAAAAAAA7", "A18446744073709551617", "XFE1", "A0", "1A", "A-1", "", "A1", "ZZ1", "B2"}
 
 var c14boundary = []string{"", "0", "-1", "1", "2147483648", "99999999999", "18446744073709551616", "1e309", "NaN", "A0", "XFE1048577", "A1:", "$", "&lt;", "true", strings.Repeat("9", 40), "ZZZZZZZZZZZZZZ1", "AAAAAAAAAAAAAAAAAAAAAAAA7", "A18446744073709551617", "ZZZZ1:ZZZZZZZZZZZZZZZZ2"}
 
@@ -672,12 +673,74 @@ func (c *Ctx) c14CheckSheet(n int) {
 	}
 }
 
+// checkRow over arbitrary lists of cell references of one row (any order, duplicates, cells without reference):
+// no panic, and the placement of every cell against the extracted model (C14/Model.v: check_row)
+func (c *Ctx) c14CheckRow(n int) {
+	var reqs, impl []string
+	var descs []interface{}
+	gen := func(i int) []int {
+		k := 1 + c.Rng.Intn(7)
+		cols := make([]int, k)
+		for j := range cols {
+			switch c.Rng.Intn(6) {
+			case 0:
+				cols[j] = 0
+			case 1:
+				cols[j] = 1 + c.Rng.Intn(3)
+			default:
+				cols[j] = 1 + c.Rng.Intn(12)
+			}
+		}
+		return cols
+	}
+	fixed := [][]int{{5, 3}, {3, 3}, {2, 1}, {0, 0, 1}, {7}, {1, 2, 3}, {3, 2, 1}, {0, 5, 0, 2, 0}, {12, 0}, {2, 2, 2, 9, 1}}
+	for i := 0; i < n+len(fixed); i++ {
+		var cols []int
+		if i < len(fixed) {
+			cols = fixed[i]
+		} else {
+			cols = gen(i)
+		}
+		desc := map[string]interface{}{"cell_columns_in_document_order": cols}
+		placed, panicked := excelize.VerifCheckRow(cols)
+		asc := true
+		for j := 1; j < len(cols); j++ {
+			if cols[j] == 0 || cols[j] <= cols[j-1] {
+				asc = false
+			}
+		}
+		c.Count("checkrow", !asc, fmt.Sprint(cols))
+		if panicked {
+			c.Fail("oracle", "C14_no_panic", desc, fmt.Sprintf("checkRow panics on a row whose cells carry the columns %v", cols), "")
+			continue
+		}
+		var toks, ps []string
+		for _, col := range cols {
+			toks = append(toks, strconv.Itoa(col))
+		}
+		for _, p := range placed {
+			ps = append(ps, strconv.Itoa(p))
+		}
+		reqs, impl, descs = append(reqs, "c14.checkrow "+strings.Join(toks, " ")), append(impl, "ok "+strings.Join(ps, " ")), append(descs, desc)
+	}
+	if c.Model == nil || c.Model.path == "" || len(reqs) == 0 {
+		return
+	}
+	for i, o := range c.Model.Call(reqs) {
+		c.R.Traces++
+		if strings.TrimSpace(o) != strings.TrimSpace(impl[i]) {
+			c.Fail("model-impl", "c14.checkrow", descs[i], "source cell held by every cell of the row after checkRow: implementation ["+impl[i]+"] model ["+strings.TrimSpace(o)+"]", "")
+		}
+	}
+}
+
 func runC14(c *Ctx) {
-	c.R.Rule = "three base packages (feature-rich workbook, its password-protected form, stream-written workbook); mutation space enumerated, thinned by a stride in the quick tier: zip/compound-file level (bit flips at regular offsets, cuts, garbage), per part removal/emptying/duplication/renaming, truncation at 24 points, every attribute x 20 boundary values (numbers around 2^31, 2^64, 10^11, 1e309, cell references with 14 and more letters or 20-digit rows) and removal, every cell reference x 8 hostile references (not thinned), every v/f/t text x boundary values, removal and duplication of every leaf element; each mutant through a battery (open, list, rows three ways, cell value/style/formula/calc/rich text/hyperlink on 7 cells, merges, comments, tables, validations, conditional formats, dimension, widths, properties, search, a write, a row insert, defined names, save, close) in isolated workers with a 6 GiB address-space cap and a 20 s watchdog; panics are recovered per call and keyed by call + message. non-trivial = all"
+	c.R.Rule = "three base packages (feature-rich workbook, its password-protected form, stream-written workbook); mutation space enumerated, thinned by a stride in the quick tier: zip/compound-file level (bit flips at regular offsets, cuts, garbage), per part removal/emptying/duplication/renaming, truncation at 24 points, every attribute x 20 boundary values (numbers around 2^31, 2^64, 10^11, 1e309, cell references with 14 and more letters or 20-digit rows) and removal, every cell reference x 8 hostile and 3 misplaced valid references (not thinned), every v/f/t text x boundary values, removal and duplication of every leaf element; each mutant through a battery (open, list, rows three ways, cell value/style/formula/calc/rich text/hyperlink on 7 cells, merges, comments, tables, validations, conditional formats, dimension, widths, properties, search, a write, a row insert, defined names, save, close) in isolated workers with a 6 GiB address-space cap and a 20 s watchdog; panics are recovered per call and keyed by call + message. non-trivial = all"
 	n := 400
 	if c.Thorough() {
 		n = 6000
 	}
 	c.c14CheckSheet(n)
+	c.c14CheckRow(n)
 	c.c14Explore()
 }
